@@ -875,6 +875,188 @@ func c16Worker(c *shard.Ctx) {
 	c16Grammar2(c, a, &idx)
 	c16Grammar3(c, &idx)
 	c16Grammar4(c, &idx)
+	c16Grammar5(c, &idx)
+}
+
+// ---------------------------------------------------------------------------
+// grammar 5: one TemplateData object the caller keeps.  It is rendered, updated through one of the ways the
+// API offers (SetVariable, SetVariables, a write to the exported Variables map, Merge of another data set,
+// FromStruct, SetList / a write to Lists, SetCondition / a write to Conditions, Clear and refill) and rendered
+// again - by the same engine and by a fresh one.  Both renders must be what the reference gives for the data
+// as it is at that moment.  (seed C16-f1)
+
+var c16KeptTemplates = []string{
+	"{{v}}|{{n}}",
+	"{{#if c}}{{v}}{{else}}no {{v}}{{/if}}",
+	"{{#each L}}{{f}}{{v}};{{/each}}",
+}
+
+var c16KeptUpdates = []string{"SetVariable", "SetVariables", "Variables[...]=", "Merge", "FromStruct", "SetList", "Lists[...]=", "SetCondition", "Conditions[...]=", "Clear+refill"}
+
+type c16KeptStruct struct {
+	V string
+	N int
+}
+
+// c16KeptExpect is the reference for the three templates with v, n, c, items.
+func c16KeptExpect(tpl int, v string, n int, c bool, items []string) string {
+	switch tpl {
+	case 0:
+		return v + "|" + strconv.Itoa(n)
+	case 1:
+		if c {
+			return v
+		}
+		return "no " + v
+	}
+	out := ""
+	for _, it := range items {
+		out += it + v + ";"
+	}
+	return out
+}
+
+func c16Grammar5(c *shard.Ctx, idx *int64) {
+	for tpl := range c16KeptTemplates {
+		for upd := range c16KeptUpdates {
+			for fresh := 0; fresh < 2; fresh++ {
+				tpl, upd, fresh := tpl, upd, fresh
+				desc := c16Desc{Grammar: "kept-data", Template: c16KeptTemplates[tpl], Data: fmt.Sprintf("render, update through %s, render again (%s engine)", c16KeptUpdates[upd], []string{"same", "fresh"}[fresh])}
+				my := c.Begin(*idx, func() interface{} { return desc })
+				i := *idx
+				*idx++
+				if !my {
+					continue
+				}
+				c16KeptCase(c, i, tpl, upd, fresh == 1, desc)
+			}
+		}
+	}
+}
+
+func c16KeptCase(c *shard.Ctx, idx int64, tpl, upd int, freshEngine bool, desc c16Desc) {
+	p := c.P
+	key := rep.Hash("g5", fmt.Sprint(tpl, upd, freshEngine))
+	p.Keys = append(p.Keys, key)
+	p.Nontrivial = append(p.Nontrivial, key)
+	p.Evals++
+	p.Traces++
+	document.VerifResetGlobals()
+	items := func(xs ...string) []interface{} {
+		var o []interface{}
+		for _, x := range xs {
+			o = append(o, map[string]interface{}{"f": x})
+		}
+		return o
+	}
+	render := func(eng *document.TemplateEngine, td *document.TemplateData) (string, string) {
+		var out, fail string
+		if pan := guard(func() {
+			doc, err := eng.RenderToDocument("t", td)
+			if err != nil || doc == nil || doc.Body == nil {
+				fail = fmt.Sprintf("error:render: %v", err)
+				return
+			}
+			var ps []string
+			for _, x := range doc.Body.GetParagraphs() {
+				var sb strings.Builder
+				for _, r := range x.Runs {
+					sb.WriteString(r.Text.Content)
+				}
+				ps = append(ps, sb.String())
+			}
+			out = strings.Join(ps, "\n")
+		}); pan != "" {
+			fail = "panic:" + panicClass(pan)
+		}
+		p.Transitions++
+		return out, fail
+	}
+	var eng *document.TemplateEngine
+	var td *document.TemplateData
+	if pan := guard(func() {
+		eng = document.NewTemplateEngine()
+		eng.LoadTemplate("t", c16KeptTemplates[tpl])
+		td = document.NewTemplateData()
+		td.SetVariable("v", "old")
+		td.SetVariable("n", 17)
+		td.SetCondition("c", true)
+		td.SetList("L", items("a", "b"))
+	}); pan != "" {
+		p.HarnessErrs = append(p.HarnessErrs, "kept-data setup: "+pan)
+		return
+	}
+	report := func(stage, got, fail, want string) {
+		p.Outcome("kept-data=>differs")
+		p.Violate(rep.Violation{Sig: fmt.Sprintf("kept-data|%s|update=%s|template=%d", stage, c16KeptUpdates[upd], tpl), Clause: "a render shows the data as it is when the render is called",
+			What:  fmt.Sprintf("template %q, %s: rendered %q %s, the data at that moment gives %q", c16KeptTemplates[tpl], desc.Data, got, fail, want),
+			Depth: int(idx), Case: shardCase(c, "c16", idx, desc), Expect: want, Got: got})
+	}
+	want1 := c16KeptExpect(tpl, "old", 17, true, []string{"a", "b"})
+	if got, fail := render(eng, td); fail != "" || got != want1 {
+		report("first-render", got, fail, want1)
+		return
+	}
+	v, n, cond, its := "new", 18, false, []string{"x"}
+	nv, nn, nc, ni := "old", 17, true, []string{"a", "b"}
+	if pan := guard(func() {
+		switch c16KeptUpdates[upd] {
+		case "SetVariable":
+			td.SetVariable("v", v)
+			td.SetVariable("n", n)
+			nv, nn = v, n
+		case "SetVariables":
+			td.SetVariables(map[string]interface{}{"v": v, "n": n})
+			nv, nn = v, n
+		case "Variables[...]=":
+			td.Variables["v"] = v
+			td.Variables["n"] = n
+			nv, nn = v, n
+		case "Merge":
+			o := document.NewTemplateData()
+			o.SetVariable("v", v)
+			o.SetVariable("n", n)
+			o.SetCondition("c", cond)
+			o.SetList("L", items(its...))
+			td.Merge(o)
+			nv, nn, nc, ni = v, n, cond, its
+		case "FromStruct":
+			td.FromStruct(c16KeptStruct{V: v, N: n})
+			nv, nn = v, n
+		case "SetList":
+			td.SetList("L", items(its...))
+			ni = its
+		case "Lists[...]=":
+			td.Lists["L"] = items(its...)
+			ni = its
+		case "SetCondition":
+			td.SetCondition("c", cond)
+			nc = cond
+		case "Conditions[...]=":
+			td.Conditions["c"] = cond
+			nc = cond
+		case "Clear+refill":
+			td.Clear()
+			td.SetVariable("v", v)
+			td.SetVariable("n", n)
+			td.SetCondition("c", cond)
+			td.SetList("L", items(its...))
+			nv, nn, nc, ni = v, n, cond, its
+		}
+	}); pan != "" {
+		report("update", "", "panic:"+panicClass(pan), "")
+		return
+	}
+	if freshEngine {
+		eng = document.NewTemplateEngine()
+		eng.LoadTemplate("t", c16KeptTemplates[tpl])
+	}
+	want2 := c16KeptExpect(tpl, nv, nn, nc, ni)
+	if got, fail := render(eng, td); fail != "" || got != want2 {
+		report("render-after-update", got, fail, want2)
+		return
+	}
+	p.Outcome("kept-data=>match")
 }
 
 // ---------------------------------------------------------------------------
@@ -1513,6 +1695,7 @@ func runC16(r *rep.Run) {
 	r.Bounds["value_classes_per_slot"] = names
 	r.Bounds["value_slots"] = c16SlotName
 	r.Bounds["data_layout"] = c16DataDoc
+	r.Bounds["kept_data"] = "3 templates x 10 ways of updating one kept TemplateData object between two renders x {same engine, fresh engine}"
 	r.Bounds["inheritance_chains"] = "3 templates (base with blocks x,y; middle and leaf each overriding every subset) x 4 namings (distinct, leaf under the base's name, leaf under the middle's name, one name for all); every held name rendered after every load"
 	r.Bounds["inheritance_grammar"] = fmt.Sprintf("base with 1 or 2 blocks, surrounding text in {\"\",\"a\",\"\\n\"}, default/override content from %d fragments (empty, literal, variable, image placeholder, each, if, newline, if-else), child overriding every subset", a.G2Frags)
 	r.Rule = "every template tree of the grammar Lit | Var | If(cond, body[, else]) | Each(list, body) with item-scope nodes (field, this, @index, @first, @last, If(item bool field), nested Each(item list field)) up to the node bound, crossed with every assignment of the value classes to the value slots the template can observe; each pair rendered with LoadTemplate+RenderToDocument on a fresh engine (and, for the plain data of every template, also with RenderTemplateToDocument), paragraph texts compared with a reference interpreter evaluated on the generator's tree; then every base/child pair of the inheritance grammar (base alone, child after base). state key = template text (inheritance: base+child text); evaluations = template x data pairs; transitions = renders; non-trivial = the template contains at least one directive. A failing template is reduced with plain values to a 1-minimal failing template of the grammar (signature = failure kind + minimal template); a failure that disappears with plain values is attributed to the first slot whose value alone reproduces it (signature = value|slot kind=value class)"
